@@ -29,9 +29,11 @@ class Plan:
         self.test, self.trace_module = test, trace_module
 
 
-def mc(module, tag, invariants=("NoViolation",), export=True, replay_cap=None, constraint=None, spec="Spec", **consts):
+def mc(module, tag, invariants=("NoViolation",), export=True, replay_cap=None, constraint=None, spec="Spec", props=(), extra=None,
+       workers=None, convert=None, **consts):
     return {"module": module, "tag": tag, "inv": list(invariants), "export": export, "consts": consts,
-            "replay_cap": replay_cap or {}, "constraint": constraint, "spec": spec}
+            "replay_cap": replay_cap or {}, "constraint": constraint, "spec": spec, "props": list(props), "extra": extra,
+            "workers": workers, "convert": convert}
 
 
 def q(s):
@@ -67,6 +69,63 @@ HIST_RULE = ("behaviours = every history of the MC_hist families named in model_
              "Content-Location, validation by 304 or full reply in the foreground or background), exported by TLC and replayed "
              "into the real transport (quick: stratified sample), plus seeded random / periodic histories; non-trivial = the "
              "antecedent of one of this property's monitors is true in a recorded trace state (counted by TLC)")
+
+FP_FIELDS = {0: [], 1: [2], 2: [2, 3], 3: [3], 4: []}
+
+
+def footprint_scenarios(rows, tier, seed):
+    """long behaviours of Footprint.tla (TLC simulation mode) as histories for the real transport: Tick = everything stored
+    expires; the origin's answer and the request are the ones the model chose; the model's prediction of the index length and
+    of the number of keys after every request rides along (drift)"""
+    r = random.Random(seed * 715827883 + 59)
+    out = []
+    seen, uniq = set(), []
+    for row in rows:  # TLC evaluates the exporting invariant more than once per behaviour
+        k = json.dumps(row, sort_keys=True)
+        if k not in seen:
+            seen.add(k)
+            uniq.append(row)
+    for i, row in enumerate(uniq):
+        swr = r.choice([gen.NONE, gen.NONE, 100000])
+        steps = []
+        for s in row["steps"]:
+            if s["op"] == "tick":
+                steps.append({"op": "tick", "d": 60})
+                continue
+            if s["op"] == "unsafe":
+                loc = s["avs"]
+                a = gen.ans(st=200, ccp=0, etag=0, loc1=loc + 1 if loc >= 0 else 0, locso=1 if loc >= 0 else 0)
+                steps.append({"op": "req", "rq": gen.rq(u=s["u"], m=r.choice(["POST", "PUT", "DELETE"])), "ans": [a],
+                              "pred": {"fp": {"n": 0, "nkeys": s["nkeys"], "w": 0}}})
+                continue
+            full = gen.ans(ccp=1, ma=50, etag=1, swr=swr, vary=FP_FIELDS[s["avs"]], vs=1 if s["avs"] == 4 else 0)
+            how = s["how"]
+            if how == "304":
+                a = gen.ans(k="304", st=304, ccp=1, ma=50, etag=1, upd=1)
+            elif how == "nostore":
+                a = gen.ans(ccp=1, ma=50, fl=["no-store"], etag=1)
+            elif how == "fail":
+                a = gen.ans(k="err")
+            else:
+                a = full
+            steps.append({"op": "req", "rq": gen.rq(u=s["u"], sel=list(s["sel"]), fl=["no-cache"] if s["nc"] else []), "ans": [a],
+                          "pred": {"fp": {"n": s["n"], "nkeys": s["nkeys"], "w": 1 if how in ("304", "full") else 0}}})
+        out.append({"id": "footprint/%04d" % i, "backend": "fs" if i % 4 == 3 else "mem", "opt": {}, "steps": steps, "grp": "", "spv": 0})
+    return out
+
+
+def footprint_models(tier):
+    big = tier == "thorough"
+    inv = ("Bounded", "OneRefPerVariant", "WellFormed")
+    runs, depth = (200, 600) if big else (16, 250)
+    return [mc("Footprint", "footprint1", invariants=inv, props=("InvalidationCleans",), export=False, Defects="{}", URIs="{0}", ValsA="{0, 1}",
+               ValsB="{0}", VarySets="{0, 1, 2, 3, 4}" if big else "{0, 1, 2, 4}", Export="FALSE", MaxHist="0"),
+            mc("Footprint", "footprint2", invariants=inv, props=("InvalidationCleans",), export=False, Defects="{}", URIs="{0, 1}", ValsA="{0, 1}",
+               ValsB="{0}", VarySets="{0, 1, 4}" if big else "{0, 4}", Export="FALSE", MaxHist="0"),
+            mc("Footprint", "footprint_sim", invariants=inv + ("Exported",), export=True, convert=footprint_scenarios, workers=1,
+               extra=["-simulate", "num=%d" % runs, "-depth", str(depth + 1), "-seed", "{seed}"],
+               Defects="{}", URIs="{0, 1}", ValsA="{0, 1}", ValsB="{0, 1}", VarySets="{0, 1, 2, 3, 4}", Export="TRUE", MaxHist=str(depth))]
+
 
 def render_uri(u):
     path = "" if not u["path"] else "/" + "/".join(u["path"])
@@ -118,7 +177,7 @@ def uri_scenarios(rows, tier, seed):
 PLANS["C04"] = Plan("C04", hist_models("vary", "wb"), extra=gen.random_vary, rule=HIST_RULE)
 PLANS["C07"] = Plan("C07", hist_models("inval"), extra=gen.random_inval, rule=HIST_RULE)
 PLANS["C08"] = Plan("C08", hist_models("wb", "vary"), extra=gen.random_vary, rule=HIST_RULE)
-PLANS["C19"] = Plan("C19", hist_models("vary", "inval"), extra=gen.periodic, rule=HIST_RULE)
+PLANS["C19"] = None  # defined below (needs footprint_models)
 def store_models(tier):
     return [mc("MC_store", "store", Defects="{}", Family=q("store"), Tier=q(tier), Export="TRUE", replay_cap={"quick": 4000})]
 
@@ -154,10 +213,56 @@ def spelling_models(tier):
     cap = {"quick": 700, "thorough": 12000}
     return [mc("MC_decide", "decideF", replay_cap=cap, Defects="{}", Family=q("F"), Tier=q("quick"), Export="TRUE"),
             mc("MC_decide", "decideV", replay_cap=cap, Defects="{}", Family=q("V"), Tier=q("quick"), Export="TRUE"),
-            mc("MC_hist", "hist_wb", replay_cap={"quick": 300, "thorough": 5000}, Defects="{}", Family=q("wb"), Tier=q("quick"), Export="TRUE")]
+            mc("MC_hist", "hist_wb", replay_cap={"quick": 300, "thorough": 5000}, Defects="{}", Family=q("wb"), Tier=q("quick"), Export="TRUE"),
+            mc("CcSyntax", "ccsyntax", invariants=("ParseExact", "CanonicalOK"), convert=lambda rows, tier, seed: cc_scenarios(rows, tier, seed),
+               Defects="{}", Tier=q(tier), Export="TRUE")]
 
 
 NSPELL = 7
+
+
+def cc_scenarios(rows, tier, seed):
+    """texts of CcSyntax.tla on the wire: for every directive list a scenario whose outcome depends on its meaning, executed with
+    the canonical text and with sampled rewrites (group: the observations must be those of the canonical run)"""
+    r = random.Random(seed * 694847539 + 61)
+    bydl = {}
+    for row in rows:
+        bydl.setdefault(row["dl"], []).append(row)
+    ngroups, per = (4, 12) if tier == "quick" else (25, 12)
+    out = []
+
+    def text(lines):
+        return ["".join(l) for l in lines]
+
+    for dl in sorted(bydl):
+        rows_dl = bydl[dl]
+        r.shuffle(rows_dl)
+        for g in range(ngroups):
+            members = rows_dl[g * per:(g + 1) * per]
+            if not members:
+                break
+            first = members[0]
+            variants = [text(first["canon"])] + [text(m["lines"]) for m in members]
+            for spv, ccl in enumerate(variants):
+                a = first["abs"]
+                plain = gen.ans(ccp=1, ma=5, etag=1)
+                other = gen.ans(ccp=1, ma=50, etag=2)
+                if first["kind"] == "resp":
+                    stored = gen.ans(ccp=1, ma=a["ma"], swr=a["swr"], sie=a["sie"], fl=list(a["fl"]), ncf=a["ncf"], etag=1, ccl=ccl)
+                    probes = [gen.rq(), gen.rq(), gen.rq(), gen.rq()]
+                else:
+                    stored = plain
+                    q_ = gen.rq(ma=a["ma"], ms=a["ms"], mf=a["mf"], sie=a["sie"], fl=list(a["fl"]), ccl=ccl)
+                    probes = [q_, dict(q_), dict(q_), gen.rq()]
+                steps = [{"op": "req", "rq": gen.rq(), "ans": [stored]}, {"op": "tick", "d": 3},
+                         {"op": "req", "rq": probes[0], "ans": [gen.ans(k="304", st=304, ccp=0, etag=1, upd=1), other]}, {"op": "tick", "d": 4},
+                         {"op": "req", "rq": probes[1], "ans": [gen.ans(k="err")]}, {"op": "tick", "d": 1},
+                         {"op": "req", "rq": probes[2], "ans": [other]}, {"op": "tick", "d": 30},
+                         {"op": "req", "rq": probes[3], "ans": [other]}]
+                gid = "cc/%02d/%02d" % (dl, g)
+                out.append({"id": "%s/v%02d" % (gid, spv), "backend": "mem", "opt": {}, "steps": steps, "grp": gid, "spv": spv,
+                            "meta": {"cc": ccl}})
+    return out
 
 
 def spelling_groups(rows_scn, tier, seed):
@@ -165,6 +270,9 @@ def spelling_groups(rows_scn, tier, seed):
     group must show the same abstract observations (monitor SpellingInvariant)"""
     out = []
     for s in rows_scn:
+        if s.get("grp"):  # already a member of a group (CcSyntax.tla)
+            out.append(s)
+            continue
         for sp in range(NSPELL):
             steps = []
             for st in s["steps"]:
@@ -334,7 +442,16 @@ PLANS["C15"] = Plan("C15", atomic_models, extra=gen.kv_cuts, rows_to_scenarios=s
                          "kills itself at every hook step of set() and at random instants, with and without a previous value, with "
                          "and without encryption; afterwards Get / Keys / reopen must behave as the map with the old or the new "
                          "value or absent; non-trivial = a Get after a cut or killed write was judged")
-PLANS["C17"] = Plan("C17", lambda tier: [], extra=gen.kv_crypto, test="TestKV", trace_module="TraceKV", level="exploration", race=True,
+def enc_models(tier):
+    inv = ("Judged", "FreshNonces", "NoPlaintext", "SameFiles", "Exported")
+    big = tier == "thorough"
+    return [mc("MC_enc", "enc_kv", invariants=inv, Defects="{}", Depth="5" if big else "4", Family=q("kv"), Export="TRUE"),
+            mc("MC_enc", "enc_rt", invariants=inv, Defects="{}", Depth="4", Family=q("rt"), Export="TRUE"),
+            mc("MC_enc", "enc_open", invariants=inv, Defects="{}", Depth="1", Family=q("open"), Export="TRUE")]
+
+
+PLANS["C17"] = Plan("C17", enc_models, extra=gen.kv_crypto, rows_to_scenarios=gen.enc_from_rows, test="TestKV", trace_module="TraceKV",
+                    level="model_checking", race=True,
                     assumptions=KV_TRUSTED + ["nothing is claimed about cryptographic strength; only the observable protocol: no 16-byte "
                                               "window of the value in any file, fresh ciphertext per write, rejection of modified files"],
                     rule="for values of several sizes on the encrypted backend: every byte position of the stored file is bit-flipped "
@@ -343,6 +460,11 @@ PLANS["C17"] = Plan("C17", lambda tier: [], extra=gen.kv_crypto, test="TestKV", 
                          "without encryption; every way of switching encryption on (option, DSN on / aesgcm, DSN + environment key) "
                          "with valid, missing, empty, malformed and wrong-length keys; judged by TLC against KVStore.tla; "
                          "non-trivial = an operation under encryption was judged")
+PLANS["C19"] = Plan("C19", lambda tier: footprint_models(tier) + hist_models("vary", "inval")(tier), extra=gen.periodic,
+                    rule="Footprint.tla: TLC explores ALL reachable store states (variant indexes, entries, freshness) under unbounded "
+                         "repetition of the request alphabet - the state space is finite - and checks Bounded / OneRefPerVariant / "
+                         "InvalidationCleans in every one; long behaviours of the same model from TLC's simulation mode are replayed into "
+                         "the real transport with the predicted index length and key count after every request; " + HIST_RULE)
 PLANS["C03"] = Plan("C03", uri_models, rows_to_scenarios=uri_scenarios,
                     rule="pairs (a, b) = every base URI of Uri.tla with up to two components replaced from the component alphabets "
                          "(scheme / host incl. IP literals / port / path segments incl. escapes, raw non-ASCII and dot segments / "
@@ -414,7 +536,7 @@ class Thinner:
     parsed (reservoir sampling, seeded); the final stratified sample is drawn from those"""
 
     def __init__(self, cap, seed):
-        self.per = max(8, cap // 400)
+        self.per = max(4, cap // 2000)
         self.limit = 4 * cap
         self.kept = 0
         self.r = random.Random(seed * 6700417 + 5)
@@ -469,6 +591,8 @@ def drift_of(scn, events):
                 diffs.append("op%d keys: model %r code %r" % (i, p["keys"], e["keys"]))
         return diffs
     preds = []
+    if scn["id"].startswith("footprint/"):
+        return footprint_drift(scn, events)
     for s in scn["steps"]:
         if s.get("op") == "req":
             preds.append(s.get("pred"))
@@ -494,6 +618,25 @@ def drift_of(scn, events):
     return diffs
 
 
+def footprint_drift(scn, events):
+    """Footprint.tla predicts, for every request, the length of the index that is written and the number of keys afterwards"""
+    preds = [s["pred"]["fp"] for s in scn["steps"] if s.get("op") == "req"]
+    last, lastidx = {}, {}
+    for e in events:
+        if e.get("ev") == "op":
+            last[e["x"]] = e
+            if e["kind"] == "set" and e["role"] == "idx":
+                lastidx[e["x"]] = e
+    diffs = []
+    for i, p in enumerate(preds):
+        x = i + 1
+        if p["w"] and (x not in lastidx or lastidx[x]["n"] != p["n"]):
+            diffs.append("x%d index length: model %r code %r" % (x, p["n"], lastidx.get(x, {}).get("n")))
+        if x in last and last[x]["kind"] in ("set", "del") and last[x]["nkeys"] != p["nkeys"]:
+            diffs.append("x%d keys: model %r code %r" % (x, p["nkeys"], last[x]["nkeys"]))
+    return diffs
+
+
 def run_property(prop, tier, seed):
     plan = PLANS[prop]
     if plan.engine != "http":
@@ -507,8 +650,10 @@ def run_property(prop, tier, seed):
         for m in plan.models(tier):
             cap = m.get("replay_cap", {}).get(tier)
             stats, rows, _ = vlib.model_check(work, m["module"], m["consts"], invariants=m["inv"], export=m["export"], name=m["tag"],
-                                              constraint=m.get("constraint"), spec=m.get("spec", "Spec"),
-                                              keep=Thinner(cap, seed) if cap and not plan.rows_to_scenarios else None)
+                                              constraint=m.get("constraint"), spec=m.get("spec", "Spec"), props=m.get("props", ()),
+                                              extra=[x.replace("{seed}", str(seed)) for x in m["extra"]] if m.get("extra") else None,
+                                              workers=m.get("workers"),
+                                              keep=Thinner(cap, seed) if cap and not plan.rows_to_scenarios and not m.get("convert") else None)
             states += stats["distinct"]
             transitions += stats["generated"]
             mcinfo.append({"config": m["tag"], "constants": m["consts"], "distinct_states": stats["distinct"],
@@ -516,12 +661,14 @@ def run_property(prop, tier, seed):
             be = plan.backends or (lambda i: "mem")
             if not m["export"]:
                 continue
-            if plan.rows_to_scenarios:
+            if m.get("convert"):
+                scn = m["convert"](rows, tier, seed)
+            elif plan.rows_to_scenarios:
                 scn = plan.rows_to_scenarios(rows, tier, seed)
             else:
                 scn = scenarios_from_rows(rows, m["tag"], be)
             cap = m.get("replay_cap", {}).get(tier)
-            if cap and len(scn) > cap:
+            if cap and len(scn) > cap and not m.get("convert"):
                 scn = stratified(scn, cap, seed)
             mcinfo[-1]["behaviours_replayed"] = len(scn)
             scenarios += scn
@@ -541,7 +688,7 @@ def run_property(prop, tier, seed):
         # drift accounting on a sample of traces (model prediction vs code)
         drift, drift_samples, checked = 0, [], 0
         samples = []
-        for tf in traces[:4]:
+        for tf in (traces if len(scenarios) <= 20000 else traces[:4]):
             cur, evs = None, []
             with open(tf) as f:
                 for ln in f:
